@@ -16,39 +16,67 @@ Definition run_fuel : nat := 41.
 
 Record case10 := mk10 {
   c_ds : list nat;        (* sides: [w;h] or [w;h;d] *)
-  c_ws : list Z;          (* cell weights (i64, or f64 holding integers) *)
+  c_ws : list Z;          (* cell weights z: i64 values, or f64 values z * 2^-k *)
   c_k : nat;              (* iter_count *)
   c_T : nat;              (* rayon pool size the implementation ran under *)
-  c_fw : bool;            (* weights were passed as f64 *)
+  c_fw : wty;             (* I64, or F64 k *)
+  c_exact : bool;         (* true: every sum the code forms is exact in its weight type (the
+                             model applies); false: arbitrary f64 fractions, given exactly at
+                             scale k -- checker only *)
   c_impl : impl_res }.
 
 Definition start_axis (ds : list nat) : nat :=
   if Nat.eqb (length ds) 2 then gridrcb_start_recurse_2d else gridrcb_start_recurse_3d.
 
+(* band allowance for the arbitrary-fraction stream: the implementation's f64
+   prefix sums and total differ from the exact ones by at most ~n * 2^-53
+   relative (n <= 1728 cells), which moves the 1% band by less than 2^-30 *)
+Definition arb_slack : Z := 30.
+
 Definition eval10 (c : case10) : verdict :=
-  let r := grid_rcb cfg_impl run_fuel (c_T c) (c_fw c) (c_ds c) (c_ws c) (c_k c) (glen (c_ds c)) in
-  let corr :=
-    match r, c_impl c with
-    | Ok p, IOk p' => list_eqb N.eqb p p'
-    | Panic _, IPanic => true
-    | OutOfFuel, IHang => true
-    | _, _ => false
-    end in
-  let in_contract :=
+  let sides_ok :=
     negb (existsb (Nat.eqb 0) (c_ds c))
     && (Nat.eqb (length (c_ds c)) 2 || Nat.eqb (length (c_ds c)) 3)
     && Nat.eqb (length (c_ws c)) (glen (c_ds c))
     && forallb (fun w => 0 <=? w) (c_ws c)
-    && (sumZ (c_ws c) <? 2 ^ 46)      (* range of theorem C10_thresholds; beyond: correspondence only *)
     && Nat.leb 1 (c_T c) in
-  let prop :=
-    if in_contract then
-      match c_impl c with
-      | IOk p => check_C10 (start_axis (c_ds c)) (c_ds c) (c_ws c) (c_k c) p
-      | _ => false                 (* panic or hang inside the contract *)
-      end
-    else true in
-  let cls := match c_impl c with IOk _ => 0 | IErr _ _ _ => 2 | IPanic => 3 | IHang => 4 end%N in
-  {| corr_ok := corr; prop_ok := prop; cls := cls |}.
+  if c_exact c then
+    let r := grid_rcb cfg_impl run_fuel (c_T c) (c_fw c) (c_ds c) (c_ws c) (c_k c) (glen (c_ds c)) in
+    let corr :=
+      match r, c_impl c with
+      | Ok p, IOk p' => list_eqb N.eqb p p'
+      | Panic _, IPanic => true
+      | OutOfFuel, IHang => true
+      | _, _ => false
+      end in
+    (* range of theorems C10_thresholds_i64 / _f64; beyond: correspondence only *)
+    let in_contract :=
+      sides_ok
+      && match c_fw c with
+         | I64 => sumZ (c_ws c) <? 2 ^ 46
+         | F64 k => Nat.leb k 1000 && (sumZ (c_ws c) <? 2 ^ 53)
+         end in
+    let prop :=
+      if in_contract then
+        match c_impl c with
+        | IOk p => check_C10 (bal_prop_b (c_fw c)) (start_axis (c_ds c)) (c_ds c) (c_ws c) (c_k c) p
+        | _ => false                 (* panic or hang inside the contract *)
+        end
+      else true in
+    let cls := match c_impl c with IOk _ => 0 | IErr _ _ _ => 2 | IPanic => 3 | IHang => 4 end%N in
+    {| corr_ok := corr; prop_ok := prop; cls := cls |}
+  else
+    (* arbitrary f64 fractions: the sums the code forms are rounded and their association
+       depends on the pool size, so no model run; the checker judges the ids against the
+       EXACT weights (every f64 is z * 2^-k), with no unit slack *)
+    let prop :=
+      if sides_ok then
+        match c_impl c with
+        | IOk p => check_C10 (bal_rel_b arb_slack) (start_axis (c_ds c)) (c_ds c) (c_ws c) (c_k c) p
+        | _ => false
+        end
+      else true in
+    let cls := match c_impl c with IOk _ => 5 | IErr _ _ _ => 2 | IPanic => 3 | IHang => 4 end%N in
+    {| corr_ok := match c_impl c with IOk _ => true | _ => false end; prop_ok := prop; cls := cls |}.
 
 Definition run10 (cs : list case10) := report (map eval10 cs).
